@@ -87,6 +87,7 @@ class CaseLog:
         self.validated = 0
         self.twins = []
         self.notes = []
+        self._replays = []  # (key, replay spec, sampler): used as a numeric fall-back if the symbolic run cannot complete
 
     # -- bookkeeping --
     def encode(self, *funcs):
@@ -134,6 +135,7 @@ class CaseLog:
         rec = {"case": self.case, "what": verdict.what, "status": verdict.status, "time_s": round(verdict.time, 4),
                "residual_terms": verdict.nterms}
         self.obligations.append(rec)
+        self.register_replay(key, replay, sampler)
         pts = []
         if verdict.model:
             pts.append(dict(verdict.model))
@@ -162,9 +164,29 @@ class CaseLog:
     def validate(self, n=1):
         self.validated += n
 
+    def register_replay(self, key, replay, sampler):
+        """Make a replay available as fall-back: if the symbolic execution of this case cannot be completed (engine escape,
+        unexpected exception raised by the code under analysis), the replay is run at sampler points; a reproduced finding
+        is then reported as a violation instead of leaving the case merely inconclusive."""
+        if replay is not None and sampler is not None and all(r[1] != replay for r in self._replays):
+            self._replays.append((key, replay, sampler))
+
+    def run_fallback(self, why, npoints=4):
+        for key, replay, sampler in self._replays[:6]:
+            for _ in range(npoints):
+                p = sampler(self.rng)
+                script = replay_script(replay[0], replay[1], p, **(replay[2] if len(replay) > 2 else {}))
+                rc, out = run_script(script)
+                if rc == 1:
+                    self.violations.append({"key": key, "what": "numeric fall-back after: %s" % why[:200], "case": self.case,
+                                            "detail": out.strip()[-600:], "point": {k: str(v) for k, v in p.items()}, "script": script})
+                    return True
+        return False
+
     def export(self):
         d = dict(self.__dict__)
         d.pop("rng")
+        d.pop("_replays", None)
         d["assumptions"] = sorted(self.assumptions)
         return d
 
@@ -195,13 +217,19 @@ def _run_case(args):
         mod = sys.modules.get(modname) or __import__(modname, fromlist=["x"])
         getattr(mod, fname)(log, **kwargs)
     except CaseTimeout:
-        log.inconclusive.append("%s: case exceeded its time limit of %d s (bound too deep for this tier)" % (name, limit))
+        why = "%s: case exceeded its time limit of %d s (bound too deep for this tier)" % (name, limit)
+        if not log.run_fallback(why):
+            log.inconclusive.append(why)
     except (SymbolicEscape, EngineError, S.PathBudgetExceeded) as e:
-        log.inconclusive.append("%s: %s: %s" % (name, type(e).__name__, e))
-        log.notes.append(traceback.format_exc()[-1500:])
+        why = "%s: %s: %s" % (name, type(e).__name__, e)
+        if not log.run_fallback(why):
+            log.inconclusive.append(why)
+            log.notes.append(traceback.format_exc()[-1500:])
     except Exception as e:
-        log.inconclusive.append("%s: unexpected %s: %s" % (name, type(e).__name__, e))
-        log.notes.append(traceback.format_exc()[-2500:])
+        why = "%s: unexpected %s: %s" % (name, type(e).__name__, e)
+        if not log.run_fallback(why):
+            log.inconclusive.append(why)
+            log.notes.append(traceback.format_exc()[-2500:])
     try:
         signal.alarm(0)
     except Exception:
